@@ -2214,6 +2214,146 @@ fn e2e_pn(input: &[V]) -> Vec<V> {
     out
 }
 
+// ------------------------------------------------------------------------------------------
+// e2e_cid (C13)
+// ------------------------------------------------------------------------------------------
+//
+// case: [seed, cid_lifetime_s (0 = none, else >= 60), limit_client, limit_server, rebinds,
+//        rebind_every_ms, drop_pm, delay_ms, pause_ms, bytes, n_bidi, jitter_ms, fault_until_ms]
+// output: [1, watchdog_hit, connect_ok, limit_client, limit_server, capped, n_rows, rows x 8]
+//   rows (kind, endpoint, seq, retire_prior_to, id hash, token hash, dcid hash, t_us):
+//   0 NEW_CONNECTION_ID sent            1 RETIRE_CONNECTION_ID sent (dcid hash = destination id of
+//   2 NEW_CONNECTION_ID received          the datagram that carries it, -1 unknown)
+//   3 RETIRE_CONNECTION_ID received     4 datagram dropped: unknown destination id (id hash)
+//   5 this endpoint's handshake connection id = sequence number 0 (id hash)
+
+fn e2e_cid(input: &[V]) -> Vec<V> {
+    let mut c = Cur::new(input);
+    let seed = c.u64();
+    let life_s = c.u64();
+    let life_s = if life_s == 0 { 0 } else { life_s.clamp(60, 3600) };
+    let limit_c = c.u64().clamp(2, 8);
+    let limit_s = c.u64().clamp(2, 8);
+    let rebinds = c.u64().min(4);
+    let rebind_every_ms = c.u64().clamp(100, 600_000);
+    let drop_pm = c.u64().min(300);
+    let delay_ms = c.u64().clamp(1, 500);
+    let pause_ms = c.u64().min(120_000);
+    let bytes = c.u64().min(200_000);
+    let n_bidi = c.u64().clamp(1, 4);
+    let jitter_ms = c.u64().min(500);
+    let fault_until_ms = c.u64();
+
+    let sh = new_shared(seed);
+    {
+        let mut s = sh.lock().unwrap();
+        s.xmode = 2;
+        s.cid_len = CID_LEN;
+    }
+    let app = AppCfg {
+        seed,
+        n_bidi,
+        n_uni: 0,
+        bytes,
+        stream_window: 400_000,
+        conn_window: 1_000_000,
+        max_streams: 100,
+        chunk: (bytes / 16).max(1),
+        read_size: 0,
+        idle_ms: (4 * pause_ms).max(30_000),
+        watchdog_us: 3_000_000_000,
+        close_at_end: true,
+        cid_lifetime_ms: life_s * 1000,
+        active_cid_limit: [limit_c, limit_s],
+        pause_ms,
+        rebinds,
+        rebind_every_ms,
+        ..Default::default()
+    };
+    let net = NetCfg {
+        seed,
+        drop_pm,
+        jitter_ms,
+        delay_ms,
+        max_udp: 65535,
+        fault_until_us: fault_until_ms * 1000,
+        ..Default::default()
+    };
+    let _ = run_sim(net, app, sh.clone(), |_, _| Ok(()), 0);
+    let s = sh.lock().unwrap();
+    let mut out: Vec<V> = vec![1, s.watchdog_hit as V, s.connect_ok as V, limit_c as V, limit_s as V, s.xcapped as V, s.xlog.len() as V];
+    for r in &s.xlog {
+        out.extend_from_slice(r);
+    }
+    out
+}
+
+// ------------------------------------------------------------------------------------------
+// e2e_cc (C09 / C10)
+// ------------------------------------------------------------------------------------------
+//
+// case: [seed, cc (0 cubic, 1 bbr), drop_pm, dup_pm, jitter_ms, delay_ms, n_bidi, bytes, fault_until_ms,
+//        n_uni, max_udp]
+// output: [1, watchdog_hit, connect_ok, cc, capped, n_rows, rows x 8]
+//   rows (kind, endpoint, x, a, b, c, d, t_us), events of the sending side of each endpoint:
+//   0 packet sent: x = space, a = packet number, b = bytes, c = ack eliciting (-1 unknown), d = mode
+//     (0 normal, 1 loss recovery probe, 2 MTU probe, 3 path validation)
+//   1 ACK range received: x = space, a..=b        2 packet lost: x = space, a = pn, b = bytes, c = MTU probe
+//   3 recovery metrics: x = pto_count, a = cwnd, b = bytes_in_flight, c = smoothed rtt us, d = latest rtt us
+//   4 key space discarded: x = space              5 congestion event      6 MTU updated: a = mtu
+//   7 connection closed
+
+fn e2e_cc(input: &[V]) -> Vec<V> {
+    let mut c = Cur::new(input);
+    let seed = c.u64();
+    let cc = c.u64().min(1);
+    let drop_pm = c.u64().min(300);
+    let dup_pm = c.u64().min(500);
+    let jitter_ms = c.u64().min(500);
+    let delay_ms = c.u64().clamp(1, 500);
+    let n_bidi = c.u64().clamp(1, 4);
+    let bytes = c.u64().min(400_000);
+    let fault_until_ms = c.u64();
+    let n_uni = c.u64().min(2);
+    let max_udp = c.u64().clamp(1200, 65535) as usize;
+
+    let sh = new_shared(seed);
+    sh.lock().unwrap().xmode = 3;
+    let app = AppCfg {
+        seed,
+        n_bidi,
+        n_uni,
+        bytes,
+        stream_window: 1_000_000,
+        conn_window: 4_000_000,
+        max_streams: 100,
+        chunk: 20_000,
+        read_size: 0,
+        idle_ms: 30_000,
+        watchdog_us: 600_000_000,
+        close_at_end: true,
+        cc,
+        ..Default::default()
+    };
+    let net = NetCfg {
+        seed,
+        drop_pm,
+        dup_pm,
+        jitter_ms,
+        delay_ms,
+        max_udp,
+        fault_until_us: fault_until_ms * 1000,
+        ..Default::default()
+    };
+    let _ = run_sim(net, app, sh.clone(), |_, _| Ok(()), 0);
+    let s = sh.lock().unwrap();
+    let mut out: Vec<V> = vec![1, s.watchdog_hit as V, s.connect_ok as V, cc as V, s.xcapped as V, s.xlog.len() as V];
+    for r in &s.xlog {
+        out.extend_from_slice(r);
+    }
+    out
+}
+
 fn main() {
     // e2e_stream_cXX: the same run, judged for one property only by the extracted monitor
     h_common::main_with(&[
@@ -2225,5 +2365,7 @@ fn main() {
         ("e2e_amp", e2e_amp),
         ("e2e_inject", e2e_inject),
         ("e2e_pn", e2e_pn),
+        ("e2e_cid", e2e_cid),
+        ("e2e_cc", e2e_cc),
     ]);
 }
